@@ -78,6 +78,9 @@ type WalkResult struct {
 	// RetVal: the returned values, followed through entered callees' parameters,
 	// results and the phis resolved on the path
 	RetVal map[int]ssa.Value
+	// RetNil: for results whose nil-ness is known (the nil constant, or a value
+	// that cannot be nil such as a fresh error), whether they are nil
+	RetNil map[int]bool
 }
 
 // Root follows v through parameters of entered callees to the value of the
@@ -391,7 +394,7 @@ func (val *Valuation) Walk(start, from *ssa.BasicBlock) WalkResult {
 }
 
 func (val *Valuation) walkFrame(f *wframe, start, from *ssa.BasicBlock, depth int) WalkResult {
-	res := WalkResult{Phi: f.phiVal, RetInt: map[int]int64{}, RetBool: map[int]bool{}, RetVal: map[int]ssa.Value{}}
+	res := WalkResult{Phi: f.phiVal, RetInt: map[int]int64{}, RetBool: map[int]bool{}, RetVal: map[int]ssa.Value{}, RetNil: map[int]bool{}}
 	cur, prev := start, from
 	val.cur = f
 	for steps := 0; steps < 10000; steps++ {
@@ -515,6 +518,9 @@ func (val *Valuation) walkFrame(f *wframe, start, from *ssa.BasicBlock, depth in
 					res.RetBool[i] = b
 				}
 				res.RetVal[i], _ = val.rootIn(f, r)
+				if isNil, known := val.nilness(f, r); known {
+					res.RetNil[i] = isNil
+				}
 			}
 			res.End, res.Prev, res.OK = last, prev, true
 			return res
